@@ -15,3 +15,10 @@ for f in sorted(glob.glob("/verif/seeded/*/meta.json")):
     rows.append(f"| {m['id']} | {m['property']} | {summary} | {'yes' if m.get('confirmed') else 'pending'} | {', '.join(kinds) if kinds else 'MISSED'} |")
 print("| id | property | change | confirmed | caught by |\n|---|---|---|---|---|")
 print("\n".join(rows))
+import sys
+if "--write" in sys.argv:
+    p = "/verif/DESIGN.md"
+    s = open(p).read()
+    a, b = s.index("<!-- SEEDED-TABLE-START -->"), s.index("<!-- SEEDED-TABLE-END -->")
+    tab = "| id | property | change | confirmed | caught by |\n|---|---|---|---|---|\n" + "\n".join(rows) + "\n"
+    open(p, "w").write(s[:a] + "<!-- SEEDED-TABLE-START -->\n" + tab + s[b:])
